@@ -293,6 +293,14 @@ class Taint:
                             if self._tainted(f, v):
                                 t, why = True, 'operand of %s at %s' % (ins.op, ins.loc())
                                 break
+                    if ins.op in ('br', 'switch') and ins.block.name in tc:
+                        # control dependence is transitive: whatever depends on a branch that itself only executes under
+                        # source-dependent control is under source-dependent control
+                        for b, deps in self.cd[f.name].items():
+                            if ins.block.name in deps and b not in tc:
+                                tc.add(b)
+                                self.why[('ctl', f.name, b)] = self.why.get(('ctl', f.name, ins.block.name), '') + ' (transitively, via %s)' % ins.loc()
+                                changed = True
                     if t and ins.res is not None and (f.name, ins.res) not in self.tv:
                         self.tv.add((f.name, ins.res))
                         self.why[(f.name, ins.res)] = why
